@@ -1,1 +1,593 @@
-//! (module to be written)
+//! TeX's input stack with `\input` / `\endinput` (§300-§329, §357-§362, §378, §537-§538) and the
+//! read streams `\openin` / `\read` / `\ifeof` / `\closein` (§480-§486, §501, §1275), on top of the line
+//! scanner `scan`.
+//!
+//! Two switches produce the *adjusted expectations* of the known findings of DESIGN §4.1:
+//!
+//! * `EndInput::TexGlobalFlag` is TeX: `\endinput` sets the single global `force_eof` (§378); the flag is
+//!   tested when the current line of *whatever file is then on top of the stack* is exhausted (§360/§362
+//!   `if not force_eof then <read next line> ...; if force_eof then <close, force_eof←false>`), so the
+//!   rest of the `\endinput` line is read, and a file opened on that rest is the one that gets closed
+//!   after its first line. `EndInput::PerSourceDropLine` (D14a) marks the innermost file as ended
+//!   and forgets the rest of its current line at once.
+//! * `Eof::Tex`: a read stream is `just_open` / `normal` / `closed`; when `input_ln` fails the stream is
+//!   closed *and the line read is empty* (§485/§486), so the `\read` after the last real line
+//!   delivers the end-line character of an empty line (`\par`) and only then `\ifeof` is true.
+//!   `Eof::ClosesWithLastLine` (D14b) closes the stream as soon as its last real line has been read
+//!   (an empty file counts as one empty line); a later `\read` goes to the terminal.
+//!
+//! Line model of a file: see `scan` (lines between `\n`, the empty file has no line). TeX82 itself
+//! says "if the file is empty, it is considered to contain a single blank line" (§538); the property
+//! checked (C19) is stated on lines standing in place, so the crate's convention is used and the
+//! difference is recorded as an assumption of the check.
+
+use crate::scan::{self, Config, Item, Source, TokV};
+use std::collections::{BTreeMap, HashMap};
+
+#[derive(Clone, Copy, Debug, PartialEq, Eq)]
+pub enum EndInput {
+    TexGlobalFlag,
+    PerSourceDropLine,
+}
+
+#[derive(Clone, Copy, Debug, PartialEq, Eq)]
+pub enum Eof {
+    Tex,
+    ClosesWithLastLine,
+}
+
+// ------------------------------------------------------------------ input stack + a tiny main control
+
+#[derive(Clone, Debug)]
+enum Entry {
+    File { src: Source, ended: bool },
+    /// a token list: a macro body or a backed-up token (§323-§325)
+    Toks { toks: Vec<TokV>, pos: usize },
+}
+
+#[derive(Clone, Debug, PartialEq, Eq)]
+pub enum Stop {
+    /// every source was read to its end
+    EndOfInput,
+    /// `}` with no open group (TeX: recoverable "Too many }'s"; the crate: fatal)
+    ExtraRightBrace,
+    /// `\fi` with no open conditional (TeX: recoverable "Extra \fi")
+    ExtraFi,
+    FileNotFound(String),
+    /// more than `max_open` files open at once (TeX §328 `overflow("text input levels")`)
+    TooManyInputs,
+    /// malformed `\def` in the little language of the check (not produced by its menus)
+    BadDef,
+    /// a control sequence the little language does not know. (TeX *expands* an undefined control
+    /// sequence - an error at that moment - so it must not be modelled as an unexpandable token.)
+    UnknownCs(String),
+    /// model step budget (not produced by the menus of the check)
+    Budget,
+}
+
+#[derive(Clone, Debug)]
+pub struct RunResult {
+    /// the characters delivered to main control; an undefined control sequence shows as `<undef \name>`
+    pub out: String,
+    pub stop: Stop,
+    /// predicate of finding D14a: an `\endinput` was executed while TeX still had something to read
+    /// before the line end that makes it effective (rest of the line of the current file yields a
+    /// token, or a token list above that file is not exhausted)
+    pub endinput_with_rest: bool,
+    pub endinput_executed: u32,
+    /// collision facts for the vacuity counters
+    pub max_open_files: usize,
+    pub input_mid_line: bool,
+    pub file_ended_in_group: bool,
+    pub file_ended_in_cond: bool,
+    pub force_eof_closed_other_file: bool,
+    pub backed_token_across_push: bool,
+}
+
+pub struct InputMachine<'a> {
+    files: &'a BTreeMap<String, String>,
+    cfg: Config,
+    mode: EndInput,
+    pub max_open: usize,
+    stack: Vec<Entry>,
+    force_eof: bool,
+    /// index in `stack` of the file that executed the pending `\endinput` (to recognise "closed another file")
+    force_eof_owner: Option<usize>,
+    macros: HashMap<String, Vec<TokV>>,
+    group: i64,
+    cond: i64,
+    /// (group, cond) at the time each file was opened
+    marks: Vec<(i64, i64)>,
+    r: RunResult,
+    budget: u64,
+}
+
+impl<'a> InputMachine<'a> {
+    pub fn new(files: &'a BTreeMap<String, String>, cfg: Config, mode: EndInput) -> Self {
+        InputMachine {
+            files,
+            cfg,
+            mode,
+            max_open: 100,
+            stack: vec![],
+            force_eof: false,
+            force_eof_owner: None,
+            macros: HashMap::new(),
+            group: 0,
+            cond: 0,
+            marks: vec![],
+            r: RunResult {
+                out: String::new(),
+                stop: Stop::EndOfInput,
+                endinput_with_rest: false,
+                endinput_executed: 0,
+                max_open_files: 0,
+                input_mid_line: false,
+                file_ended_in_group: false,
+                file_ended_in_cond: false,
+                force_eof_closed_other_file: false,
+                backed_token_across_push: false,
+            },
+            budget: 200_000,
+        }
+    }
+
+    fn open_files(&self) -> usize {
+        self.stack.iter().filter(|e| matches!(e, Entry::File { .. })).count()
+    }
+
+    /// §537/§538 begin_file_reading + "read the first line of the new file"
+    fn push_file(&mut self, text: &str) {
+        let mut src = Source::new(text);
+        src.start_next_line(self.cfg.end_line_char);
+        self.stack.push(Entry::File { src, ended: false });
+        self.marks.push((self.group, self.cond));
+        self.r.max_open_files = self.r.max_open_files.max(self.open_files());
+    }
+
+    fn pop_file(&mut self) {
+        self.stack.pop();
+        if let Some((g, c)) = self.marks.pop() {
+            if self.group > g {
+                self.r.file_ended_in_group = true;
+            }
+            if self.cond > c {
+                self.r.file_ended_in_cond = true;
+            }
+        }
+    }
+
+    /// get_next (§341/§357/§360): the next token from the input stack, unexpanded.
+    fn get_next(&mut self) -> Option<TokV> {
+        loop {
+            let top = self.stack.len().checked_sub(1)?;
+            match &mut self.stack[top] {
+                Entry::Toks { toks, pos } => {
+                    if *pos < toks.len() {
+                        *pos += 1;
+                        return Some(toks[*pos - 1].clone());
+                    }
+                    self.stack.pop(); // §357 end_token_list
+                }
+                Entry::File { src, ended } => {
+                    match src.next_in_line(&self.cfg) {
+                        Some(Item::Tok(t)) => return Some(t.v),
+                        Some(_) => continue, // invalid character: reported, skipped (§346)
+                        None => {}
+                    }
+                    // §360: the line is exhausted
+                    let close = match self.mode {
+                        EndInput::TexGlobalFlag => {
+                            if self.force_eof {
+                                true
+                            } else {
+                                !src.start_next_line(self.cfg.end_line_char)
+                            }
+                        }
+                        EndInput::PerSourceDropLine => *ended || !src.start_next_line(self.cfg.end_line_char),
+                    };
+                    if close {
+                        if self.mode == EndInput::TexGlobalFlag && self.force_eof {
+                            self.force_eof = false; // §362
+                            if self.force_eof_owner != Some(top) {
+                                self.r.force_eof_closed_other_file = true;
+                            }
+                            self.force_eof_owner = None;
+                        }
+                        self.pop_file();
+                    }
+                }
+            }
+        }
+    }
+
+    fn back_input(&mut self, t: TokV) {
+        self.stack.push(Entry::Toks { toks: vec![t], pos: 0 });
+    }
+
+    /// get_x_token restricted to the expandable commands of the little language:
+    /// `\input`, `\endinput`, `\iftrue`, `\fi`, parameterless macros.
+    fn get_x_token(&mut self) -> Result<Option<TokV>, Stop> {
+        loop {
+            if self.budget == 0 {
+                return Err(Stop::Budget);
+            }
+            self.budget -= 1;
+            let t = match self.get_next() {
+                None => return Ok(None),
+                Some(t) => t,
+            };
+            let name = match &t {
+                TokV::Cs(n) => n.as_str(),
+                _ => return Ok(Some(t)),
+            };
+            if let Some(body) = self.macros.get(name) {
+                let body = body.clone();
+                self.stack.push(Entry::Toks { toks: body, pos: 0 }); // §389 macro_call, no parameters
+                continue;
+            }
+            match name {
+                "iftrue" => self.cond += 1,
+                "fi" => {
+                    if self.cond == 0 {
+                        return Err(Stop::ExtraFi);
+                    }
+                    self.cond -= 1;
+                }
+                "endinput" => self.endinput(),
+                "input" => self.input()?,
+                "par" | "def" => return Ok(Some(t)),
+                _ => return Err(Stop::UnknownCs(name.to_string())),
+            }
+        }
+    }
+
+    /// §378 `end_input: force_eof←true`
+    fn endinput(&mut self) {
+        self.r.endinput_executed += 1;
+        let top_file = match self.stack.iter().rposition(|e| matches!(e, Entry::File { .. })) {
+            None => return,
+            Some(i) => i,
+        };
+        // the D14a predicate, computed on a copy: does TeX still read something before that file's line ends?
+        let pending_lists = self.stack[top_file + 1..].iter().any(|e| matches!(e, Entry::Toks { toks, pos } if *pos < toks.len()));
+        let mut rest_yields_token = false;
+        if let Entry::File { src, .. } = &self.stack[top_file] {
+            let mut copy = src.clone();
+            while let Some(i) = copy.next_in_line(&self.cfg) {
+                if matches!(i, Item::Tok(_)) {
+                    rest_yields_token = true;
+                    break;
+                }
+            }
+        }
+        if pending_lists || rest_yields_token {
+            self.r.endinput_with_rest = true;
+        }
+        match self.mode {
+            EndInput::TexGlobalFlag => {
+                self.force_eof = true;
+                self.force_eof_owner = Some(top_file);
+            }
+            EndInput::PerSourceDropLine => {
+                if let Entry::File { src, ended } = &mut self.stack[top_file] {
+                    src.drop_rest_of_line();
+                    *ended = true;
+                }
+            }
+        }
+    }
+
+    /// §526 scan_file_name + §537 start_input
+    fn input(&mut self) -> Result<(), Stop> {
+        let mut name = String::new();
+        loop {
+            match self.get_x_token()? {
+                None => break,
+                Some(TokV::Ch(_, scan::SPACER)) => break,
+                // `if (cur_cmd>other_char) or (cur_chr>255) then begin back_input; goto done; end`
+                Some(TokV::Ch(c, k)) if k <= scan::OTHER_CHAR => name.push(c),
+                Some(t) => {
+                    self.back_input(t);
+                    self.r.backed_token_across_push = true;
+                    break;
+                }
+            }
+        }
+        let text = match self.files.get(&name) {
+            None => return Err(Stop::FileNotFound(name)),
+            Some(t) => t.clone(),
+        };
+        if self.open_files() >= self.max_open {
+            return Err(Stop::TooManyInputs);
+        }
+        if let Some(Entry::File { src, .. }) = self.stack.iter().rev().find(|e| matches!(e, Entry::File { .. })) {
+            if !src.line_exhausted() {
+                self.r.input_mid_line = true;
+            }
+        }
+        self.push_file(&text);
+        Ok(())
+    }
+
+    /// `\def\name{balanced text}` (no parameters)
+    fn def(&mut self) -> Result<(), Stop> {
+        let name = match self.get_next() {
+            Some(TokV::Cs(n)) => n,
+            _ => return Err(Stop::BadDef),
+        };
+        match self.get_next() {
+            Some(TokV::Ch(_, scan::LEFT_BRACE)) => {}
+            _ => return Err(Stop::BadDef),
+        }
+        let mut depth = 0;
+        let mut body = vec![];
+        loop {
+            match self.get_next() {
+                None => return Err(Stop::BadDef),
+                Some(TokV::Ch(c, scan::LEFT_BRACE)) => {
+                    depth += 1;
+                    body.push(TokV::Ch(c, scan::LEFT_BRACE));
+                }
+                Some(TokV::Ch(c, scan::RIGHT_BRACE)) => {
+                    if depth == 0 {
+                        break;
+                    }
+                    depth -= 1;
+                    body.push(TokV::Ch(c, scan::RIGHT_BRACE));
+                }
+                Some(t) => body.push(t),
+            }
+        }
+        self.macros.insert(name, body);
+        Ok(())
+    }
+
+    /// Run `main` as the first file until the input is exhausted or an error stops the run.
+    pub fn run(mut self, main: &str) -> RunResult {
+        self.push_file(main);
+        loop {
+            let t = match self.get_x_token() {
+                Err(s) => {
+                    self.r.stop = s;
+                    break;
+                }
+                Ok(None) => break,
+                Ok(Some(t)) => t,
+            };
+            match t {
+                TokV::Ch(_, scan::LEFT_BRACE) => self.group += 1,
+                TokV::Ch(_, scan::RIGHT_BRACE) => {
+                    if self.group == 0 {
+                        self.r.stop = Stop::ExtraRightBrace;
+                        break;
+                    }
+                    self.group -= 1;
+                }
+                TokV::Ch(c, _) => self.r.out.push(c),
+                TokV::Cs(n) if n == "def" => {
+                    if let Err(s) = self.def() {
+                        self.r.stop = s;
+                        break;
+                    }
+                }
+                // \par is a primitive (par_end, unexpandable); the harness VM has no meaning for it and shows it
+                TokV::Cs(n) if n == "par" => self.r.out.push_str("<undef \\par>"),
+                TokV::Cs(n) => {
+                    self.r.stop = Stop::UnknownCs(n);
+                    break;
+                }
+            }
+        }
+        self.r
+    }
+}
+
+pub fn run_input(files: &BTreeMap<String, String>, main: &str, cfg: &Config, mode: EndInput) -> RunResult {
+    InputMachine::new(files, cfg.clone(), mode).run(main)
+}
+
+// ------------------------------------------------------------------ read streams
+
+#[derive(Clone, Debug)]
+struct Stream {
+    src: Source,
+}
+
+#[derive(Clone, Debug, PartialEq, Eq)]
+pub enum ReadOutcome {
+    /// the token list `\read` stores in its target
+    Toks(Vec<TokV>),
+    /// a terminal line was needed and the terminal had no further line (TeX: fatal error)
+    TerminalExhausted,
+    /// the file ended inside a brace group (TeX §486: error "File ended within \read", recoverable; the
+    /// crate: fatal "file has an unmatched opening brace"). Either way not a brace-balanced result.
+    FileEndedInGroup,
+}
+
+#[derive(Clone, Debug)]
+pub struct ReadMachine {
+    cfg: Config,
+    eof: Eof,
+    streams: Vec<Option<Stream>>,
+    pub terminal: Vec<String>,
+    pub terminal_pos: usize,
+    /// recoverable "bad number" errors (stream number outside 0..=15 for \openin, \closein, \ifeof)
+    pub range_errors: u32,
+    /// collision facts
+    pub ifeof_in_d14b_window: bool,
+    pub read_spanned_lines: bool,
+    pub unmatched_right_brace: bool,
+    pub read_from_terminal: bool,
+    pub read_appended_empty_line: bool,
+}
+
+impl ReadMachine {
+    pub fn new(cfg: Config, eof: Eof, terminal: &[&str]) -> ReadMachine {
+        ReadMachine {
+            cfg,
+            eof,
+            streams: (0..16).map(|_| None).collect(),
+            terminal: terminal.iter().map(|s| s.to_string()).collect(),
+            terminal_pos: 0,
+            range_errors: 0,
+            ifeof_in_d14b_window: false,
+            read_spanned_lines: false,
+            unmatched_right_brace: false,
+            read_from_terminal: false,
+            read_appended_empty_line: false,
+        }
+    }
+    /// scan_four_bit_int (§435): out of range is an error and 0 is used
+    fn four_bit(&mut self, n: i64) -> usize {
+        if (0..16).contains(&n) {
+            n as usize
+        } else {
+            self.range_errors += 1;
+            0
+        }
+    }
+    /// §1275: `\openin n=name`; `content` is None when the file cannot be opened.
+    pub fn openin(&mut self, n: i64, content: Option<&str>) {
+        let n = self.four_bit(n);
+        self.streams[n] = content.map(|c| {
+            // D14b variant: the crate makes every file end in a newline, so the empty file is one empty line
+            let text = if self.eof == Eof::ClosesWithLastLine && c.is_empty() { "\n" } else { c };
+            Stream { src: Source::new(text) }
+        });
+    }
+    pub fn closein(&mut self, n: i64) {
+        let n = self.four_bit(n);
+        self.streams[n] = None;
+    }
+    /// §501 `if_eof_code: begin scan_four_bit_int; b←(read_open[cur_val]=closed); end`
+    pub fn ifeof(&mut self, n: i64) -> bool {
+        let n = self.four_bit(n);
+        if let Some(s) = &self.streams[n] {
+            if !s.src.has_more_lines() {
+                // TeX: still open (the appended empty line has not been read). This is exactly the
+                // window in which D14b answers differently.
+                self.ifeof_in_d14b_window = true;
+            }
+        }
+        self.streams[n].is_none()
+    }
+    pub fn is_open(&self, n: usize) -> bool {
+        self.streams[n].is_some()
+    }
+
+    /// §482-§486 read_toks
+    pub fn read(&mut self, n: i64) -> ReadOutcome {
+        let m: Option<usize> = if (0..16).contains(&n) { Some(n as usize) } else { None };
+        let mut toks: Vec<TokV> = vec![];
+        let mut depth: i64 = 0; // align_state - 1000000
+        let mut nlines = 0;
+        loop {
+            // one line into a scanner of its own (state new_line)
+            let open = m.map(|m| self.streams[m].is_some()).unwrap_or(false);
+            let mut line: Source;
+            if !open {
+                // §484 input from the terminal
+                if self.terminal_pos >= self.terminal.len() {
+                    return ReadOutcome::TerminalExhausted;
+                }
+                self.read_from_terminal = true;
+                let text = self.terminal[self.terminal_pos].clone();
+                self.terminal_pos += 1;
+                line = Source::new(&text);
+                if text.is_empty() {
+                    // an empty terminal line is still a line
+                    line = Source::new("\n");
+                }
+                line.start_next_line(self.cfg.end_line_char);
+            } else {
+                let m = m.unwrap();
+                let s = self.streams[m].as_mut().unwrap();
+                if s.src.has_more_lines() {
+                    s.src.start_next_line(self.cfg.end_line_char);
+                    line = s.src.clone();
+                    if self.eof == Eof::ClosesWithLastLine && !s.src.has_more_lines() {
+                        self.streams[m] = None;
+                    }
+                } else {
+                    // §485/§486: input_ln failed: close; the line is empty
+                    debug_assert!(self.eof == Eof::Tex);
+                    self.streams[m] = None;
+                    if depth != 0 {
+                        return ReadOutcome::FileEndedInGroup;
+                    }
+                    self.read_appended_empty_line = true;
+                    line = Source::new("\n");
+                    line.start_next_line(self.cfg.end_line_char);
+                }
+            }
+            nlines += 1;
+            if nlines > 1 {
+                self.read_spanned_lines = true;
+            }
+            // §486: loop get_token; if cur_tok=0 then goto done; if align_state<1000000 then <skip the rest>
+            let mut aborted = false;
+            while let Some(i) = line.next_in_line(&self.cfg) {
+                let t = match i {
+                    Item::Tok(t) => t.v,
+                    _ => continue,
+                };
+                match t {
+                    TokV::Ch(_, scan::LEFT_BRACE) => depth += 1,
+                    TokV::Ch(_, scan::RIGHT_BRACE) => {
+                        if depth == 0 {
+                            // unmatched `}' aborts the line
+                            self.unmatched_right_brace = true;
+                            aborted = true;
+                            break;
+                        }
+                        depth -= 1;
+                    }
+                    _ => {}
+                }
+                toks.push(t);
+            }
+            if aborted || depth == 0 {
+                break;
+            }
+            if self.eof == Eof::ClosesWithLastLine && open && m.map(|m| self.streams[m].is_none()).unwrap_or(false) {
+                // D14b variant: the stream was closed with its last line while a group is open
+                return ReadOutcome::FileEndedInGroup;
+            }
+        }
+        ReadOutcome::Toks(toks)
+    }
+}
+
+pub fn show_toks(t: &[TokV]) -> String {
+    t.iter().map(|x| format!("[{}]", x.exact())).collect()
+}
+
+#[cfg(test)]
+mod tests {
+    use super::*;
+    use crate::scan::Table;
+    fn cfg() -> Config {
+        Config { table: Table::plain(), end_line_char: Some('\r'), hex: true }
+    }
+    #[test]
+    fn endinput_modes() {
+        let mut files = BTreeMap::new();
+        files.insert("b".to_string(), "B1\nB2\n".to_string());
+        let r = run_input(&files, "x\\endinput y\\input b z\nnext\n", &cfg(), EndInput::TexGlobalFlag);
+        assert_eq!(r.out, "xyB1 z next ");
+        assert!(r.endinput_with_rest && r.force_eof_closed_other_file);
+        let r = run_input(&files, "x\\endinput y\\input b z\nnext\n", &cfg(), EndInput::PerSourceDropLine);
+        assert_eq!(r.out, "x");
+    }
+    #[test]
+    fn read_modes() {
+        let mut m = ReadMachine::new(cfg(), Eof::Tex, &[]);
+        m.openin(0, Some("a\nb"));
+        assert_eq!(m.read(0), ReadOutcome::Toks(vec![TokV::Ch('a', 11), TokV::Ch(' ', 10)]));
+        assert_eq!(m.read(0), ReadOutcome::Toks(vec![TokV::Ch('b', 11), TokV::Ch(' ', 10)]));
+        assert!(!m.ifeof(0));
+        assert_eq!(m.read(0), ReadOutcome::Toks(vec![TokV::Cs("par".into())]));
+        assert!(m.ifeof(0));
+    }
+}
